@@ -56,6 +56,8 @@ def gen_points(rng, n):
             type_=rng.choice(["class", "class", "argparse", "argparse", "function"]),
             name_tpl=rng.choice(fam_gen.TEMPLATES_GOOD[:2] * 3 + fam_gen.TEMPLATES_GOOD),
             domain="wellformed", mapping_ref="ok", plain_keys=True,
+            # about one entry in five has a parameter whose name contains `kwargs` / `args` (kwargs_file, args_count)
+            odd_param_names=0.2,
             existing=None if rng.random() < 0.8 else rng.choice(["OLD = 1\n", "# old file", ""]))
         c["opts"] = {"emit_call": False, "emit_default_doc": True, "decorator_list": None}
         c["route"] = "api" if rng.random() < 0.8 else "cli"
@@ -570,6 +572,8 @@ def oracle(rng, tier):
                 hist["entry-class-documents-an-init-parameter:%s" % ("holds" if ok else "fails")] += 1
             if e["feat"].get("own_init") is False:
                 hist["entry-class-without-own-init:%s:%s" % (e["feat"].get("nested") or "nothing-nested", "holds" if ok else "fails")] += 1
+        if any(q in fam_gen.ARGS_AFFIXED for e in p["module"]["entries"] for q in e["feat"]["params"]):
+            hist["entry-with-parameter-named-like-kwargs:%s:%s" % (p["type_"], "holds" if ok else "fails")] += 1
         for e in p["module"]["entries"]:
             if e["feat"].get("nested"):
                 hist["entry-with-nested:%s:%s" % (e["feat"]["nested"], "holds" if ok else "fails")] += 1
@@ -618,7 +622,7 @@ def oracle(rng, tier):
         "evaluations": len(allpts),
         "distinct_nontrivial": len(seen),
         "rule": "points = generated input module (1..4 classes with __init__ / functions, documented or not, annotated or "
-                "not; about 3 documented classes in 10 document one to three attributes on the class (:cvar) while __init__ adds two to six "
+                "not; about one entry in five has a parameter whose name contains `kwargs` / `args` without ending in it; about 3 documented classes in 10 document one to three attributes on the class (:cvar) while __init__ adds two to six "
                 "further parameters; about 3 entries in 10 contain nested definitions that are no entries: a helper class with its own "
                 "__init__ before / after the class's __init__, two levels deep or local to a method, a function local to a "
                 "method or to the entry function) x type x name template x prepend x imports-from-file x route (API in-process, CLI in a child "
